@@ -18,6 +18,335 @@ func init() {
 		Run:  runR79})
 }
 
+// kernelRoles: the cell sources of a filter kernel (in order; a scalar second source is the constant argument),
+// its boolean index, and whether it compares two columns.
+func kernelRoles(fn *ssa.Function) (src []*ssa.Parameter, bIdx *ssa.Parameter, colcol bool) {
+	for _, prm := range fn.Params {
+		switch {
+		case isIntIndexType(prm.Type()):
+		case isBoolIndex(prm.Type()):
+			bIdx = prm
+		default:
+			src = append(src, prm)
+		}
+	}
+	if len(src) == 2 {
+		switch src[1].Type().Underlying().(type) {
+		case *types.Slice, *types.Struct:
+			colcol = types.Identical(src[0].Type(), src[1].Type())
+		}
+	}
+	return
+}
+
+// kernelBit is what evalKernelWorld reports: the bit stored for the one undecided row in that world.
+type kernelBit struct {
+	returned bool // the evaluation reached the kernel's return
+	nStores  int
+	got      bool
+	known    bool
+	at       ssa.Instruction
+	why      string
+}
+
+// nullProjection: g is a one-argument projection of a cell type with an isNull method that maps the null cell
+// to a negative constant and every other cell to its own (unsigned) code: `if v == null { return -1 }; return
+// int(v)`. Comparing two projected cells then orders null before everything else and equal to itself.
+func nullProjection(g *ssa.Function) bool {
+	if g == nil || g.Blocks == nil || len(g.Params) != 1 || g.Signature.Results().Len() != 1 {
+		return false
+	}
+	prm := g.Params[0]
+	bt, ok := prm.Type().Underlying().(*types.Basic)
+	if !ok || bt.Info()&types.IsUnsigned == 0 || !hasNullMethod(prm.Type()) {
+		return false
+	}
+	// the constant isNull compares with
+	var nullConst *ssa.Const
+	if n, ok := prm.Type().(*types.Named); ok {
+		for i := 0; i < n.NumMethods(); i++ {
+			if m := n.Method(i); m.Name() == "isNull" || m.Name() == "IsNull" {
+				if mf := g.Prog.FuncValue(m); mf != nil && mf.Blocks != nil {
+					eachInstr(mf, func(in ssa.Instruction) {
+						if b, ok := in.(*ssa.BinOp); ok && b.Op == token.EQL {
+							if k, ok := b.Y.(*ssa.Const); ok && b.X == ssa.Value(mf.Params[0]) {
+								nullConst = k
+							}
+						}
+					})
+				}
+			}
+		}
+	}
+	if nullConst == nil {
+		return false
+	}
+	okAll := true
+	for _, isNull := range []bool{true, false} {
+		pe := &pathExec{fn: g}
+		decided := true
+		pe.oracle = func(pe *pathExec, cond ssa.Value) (bool, bool) {
+			return pe.evalBool(cond, func(x ssa.Value) (bool, bool) {
+				if b, ok := x.(*ssa.BinOp); ok && (b.Op == token.EQL || b.Op == token.NEQ) && b.X == ssa.Value(prm) {
+					if k, ok := b.Y.(*ssa.Const); ok && k.Value != nil && nullConst.Value != nil && k.Value.ExactString() == nullConst.Value.ExactString() {
+						return isNull == (b.Op == token.EQL), true
+					}
+				}
+				if call, ok := x.(*ssa.Call); ok && isNullPredicate(call) && len(call.Call.Args) == 1 && call.Call.Args[0] == ssa.Value(prm) {
+					return isNull, true
+				}
+				decided = false
+				return false, false
+			})
+		}
+		end, _ := pe.run()
+		ret, ok := end.(*ssa.Return)
+		if !ok || !decided {
+			return false
+		}
+		r := pe.resolve(ret.Results[0])
+		if isNull {
+			k, isK := constInt(r)
+			if !isK || k >= 0 {
+				okAll = false
+			}
+		} else {
+			cv, isCv := r.(*ssa.Convert)
+			if !isCv || cv.X != ssa.Value(prm) {
+				okAll = false
+			}
+		}
+	}
+	return okAll
+}
+
+// projectionOf: v is the result of a static one-argument module function; returns that function.
+func projectionOf(v ssa.Value) *ssa.Function {
+	call, ok := v.(*ssa.Call)
+	if !ok || len(call.Call.Args) != 1 {
+		return nil
+	}
+	return call.Call.StaticCallee()
+}
+
+// evalKernelWorld evaluates kernel fn (E5) for one undecided row in the world (cell null, argument cell null,
+// payload relation).
+func evalKernelWorld(fn *ssa.Function, src []*ssa.Parameter, bIdx *ssa.Parameter, colcol bool, n1, n2 bool, rel string) kernelBit {
+	sideOf := func(pe *pathExec, v ssa.Value) int {
+		seen := map[ssa.Value]bool{}
+		has := [3]bool{}
+		var walk func(v ssa.Value, d int)
+		walk = func(v ssa.Value, d int) {
+			if v == nil || seen[v] || d > 14 {
+				return
+			}
+			seen[v] = true
+			switch t := v.(type) {
+			case *ssa.Parameter:
+				if t.Parent() == fn {
+					for i, s := range src {
+						if s == t {
+							has[i+1] = true
+						}
+					}
+					return
+				}
+				if bound, ok := pe.vals[t]; ok && bound != v {
+					walk(bound, d+1)
+				}
+				return
+			case *ssa.Alloc:
+				for _, r := range *t.Referrers() {
+					if st, ok := r.(*ssa.Store); ok && st.Addr == ssa.Value(t) {
+						walk(st.Val, d+1)
+					}
+				}
+				return
+			case *ssa.Phi:
+				if isIntegerType(t.Type()) && !hasNullMethod(t.Type()) {
+					return
+				}
+			}
+			if in, ok := v.(ssa.Instruction); ok {
+				var ops []*ssa.Value
+				for _, o := range in.Operands(ops) {
+					if o != nil && *o != nil {
+						walk(*o, d+1)
+					}
+				}
+			}
+		}
+		walk(v, 0)
+		switch {
+		case has[1] && !has[2]:
+			return 1
+		case has[2] && !has[1]:
+			return 2
+		}
+		return 0
+	}
+
+	var out kernelBit
+	anyNull := n1 || n2
+	pe := &pathExec{fn: fn}
+	pe.lenOf = func(call *ssa.Call) (int64, bool) { return 1, true }
+	why := ""
+	var atom func(x ssa.Value) (bool, bool)
+	atom = func(x ssa.Value) (bool, bool) {
+		switch t := x.(type) {
+		case *ssa.UnOp:
+			// the row's current bit: undecided
+			if t.Op == token.MUL {
+				if ia, ok := t.X.(*ssa.IndexAddr); ok && rootValue(ia.X) == ssa.Value(bIdx) {
+					return false, true
+				}
+			}
+		case *ssa.Extract:
+			if t.Index == 1 && isNullPredicate(t) {
+				switch sideOf(pe, t.Tuple) {
+				case 1:
+					return n1, true
+				case 2:
+					return n2 && colcol, true
+				}
+			}
+		case *ssa.Call:
+			if isNullPredicate(t) && len(t.Call.Args) > 0 {
+				switch sideOf(pe, t.Call.Args[0]) {
+				case 1:
+					return n1, true
+				case 2:
+					return n2 && colcol, true
+				}
+			}
+		case *ssa.BinOp:
+			if isIntegerType(t.X.Type()) && !hasNullMethod(t.X.Type()) && sideOf(pe, t.X) == 0 && sideOf(pe, t.Y) == 0 {
+				if a, ok1 := pe.intOf(t.X, 0); ok1 {
+					if b, ok2 := pe.intOf(t.Y, 0); ok2 {
+						switch t.Op {
+						case token.LSS:
+							return a < b, true
+						case token.LEQ:
+							return a <= b, true
+						case token.GTR:
+							return a > b, true
+						case token.GEQ:
+							return a >= b, true
+						case token.EQL:
+							return a == b, true
+						case token.NEQ:
+							return a != b, true
+						}
+					}
+				}
+			}
+			sx, sy := sideOf(pe, t.X), sideOf(pe, t.Y)
+			if !(sx == 1 && sy == 2 || sx == 2 && sy == 1) {
+				return false, false
+			}
+			if anyNull {
+				if isFloatType(t.X.Type()) {
+					return t.Op == token.NEQ, true // IEEE comparisons with NaN
+				}
+				// both sides projected by the same null-ordered projection (enum compVal): null sorts first
+				if g := projectionOf(t.X); g != nil && g == projectionOf(t.Y) && nullProjection(g) {
+					nx, ny := n1, n2
+					if sx == 2 {
+						nx, ny = n2, n1
+					}
+					pr := "="
+					switch {
+					case nx && !ny:
+						pr = "<"
+					case !nx && ny:
+						pr = ">"
+					}
+					switch t.Op {
+					case token.LSS:
+						return pr == "<", true
+					case token.GTR:
+						return pr == ">", true
+					case token.LEQ:
+						return pr != ">", true
+					case token.GEQ:
+						return pr != "<", true
+					case token.EQL:
+						return pr == "=", true
+					case token.NEQ:
+						return pr != "=", true
+					}
+				}
+				why = "the payload of a null cell takes part in the comparison"
+				return false, false
+			}
+			r := rel
+			if sx == 2 {
+				r = map[string]string{"<": ">", ">": "<", "=": "="}[rel]
+			}
+			switch t.Op {
+			case token.LSS:
+				return r == "<", true
+			case token.GTR:
+				return r == ">", true
+			case token.LEQ:
+				return r != ">", true
+			case token.GEQ:
+				return r != "<", true
+			case token.EQL:
+				return r == "=", true
+			case token.NEQ:
+				return r != "=", true
+			}
+		}
+		return false, false
+	}
+	pe.oracle = func(pe *pathExec, cond ssa.Value) (bool, bool) { return pe.evalBool(cond, atom) }
+	pe.inline = func(callee *ssa.Function) bool {
+		if callee.Pkg != fn.Pkg || callee.Name() == "isNull" || callee.Name() == "IsNull" || callee.Name() == "compVal" {
+			return false
+		}
+		if r := callee.Signature.Results(); r.Len() == 2 {
+			if b, ok := r.At(1).Type().Underlying().(*types.Basic); ok && b.Kind() == types.Bool {
+				return false
+			}
+		}
+		return true
+	}
+	nStores := 0
+	var got, known bool
+	var at ssa.Instruction
+	pe.onInstr = func(pe *pathExec, in ssa.Instruction) {
+		st, ok := in.(*ssa.Store)
+		if !ok {
+			return
+		}
+		ia, ok := st.Addr.(*ssa.IndexAddr)
+		if !ok || !isBoolIndex(ia.X.Type()) {
+			return
+		}
+		nStores++
+		got, known = pe.evalBool(st.Val, atom)
+		at = in
+	}
+	end, whyNot := pe.run()
+	switch end.(type) {
+	case *ssa.Return:
+	default:
+		if why != "" {
+			whyNot = why
+		}
+		out.why = whyNot
+		return out
+	}
+
+	out.returned = true
+	if why != "" && !known {
+		out.why = why
+	}
+	out.nStores, out.got, out.known, out.at = nStores, got, known, at
+	return out
+}
+
 func runR79(c *Ctx) {
 	p := c.P
 	for _, cp := range columnPkgs {
@@ -62,59 +391,6 @@ func runR79(c *Ctx) {
 					colcol = types.Identical(src[0].Type(), src[1].Type())
 				}
 			}
-			sideOf := func(pe *pathExec, v ssa.Value) int {
-				seen := map[ssa.Value]bool{}
-				has := [3]bool{}
-				var walk func(v ssa.Value, d int)
-				walk = func(v ssa.Value, d int) {
-					if v == nil || seen[v] || d > 14 {
-						return
-					}
-					seen[v] = true
-					switch t := v.(type) {
-					case *ssa.Parameter:
-						if t.Parent() == fn {
-							for i, s := range src {
-								if s == t {
-									has[i+1] = true
-								}
-							}
-							return
-						}
-						if bound, ok := pe.vals[t]; ok && bound != v {
-							walk(bound, d+1)
-						}
-						return
-					case *ssa.Alloc:
-						for _, r := range *t.Referrers() {
-							if st, ok := r.(*ssa.Store); ok && st.Addr == ssa.Value(t) {
-								walk(st.Val, d+1)
-							}
-						}
-						return
-					case *ssa.Phi:
-						if isIntegerType(t.Type()) && !hasNullMethod(t.Type()) {
-							return
-						}
-					}
-					if in, ok := v.(ssa.Instruction); ok {
-						var ops []*ssa.Value
-						for _, o := range in.Operands(ops) {
-							if o != nil && *o != nil {
-								walk(*o, d+1)
-							}
-						}
-					}
-				}
-				walk(v, 0)
-				switch {
-				case has[1] && !has[2]:
-					return 1
-				case has[2] && !has[1]:
-					return 2
-				}
-				return 0
-			}
 			rels := []string{"<", "=", ">"}
 			for nv := 0; nv < 4; nv++ {
 				n1, n2 := nv&1 != 0, nv&2 != 0
@@ -133,128 +409,12 @@ func runR79(c *Ctx) {
 						key += " cell" + rel + "arg"
 					}
 					anyNull := n1 || n2
-					pe := &pathExec{fn: fn}
-					pe.lenOf = func(call *ssa.Call) (int64, bool) { return 1, true }
-					why := ""
-					var atom func(x ssa.Value) (bool, bool)
-					atom = func(x ssa.Value) (bool, bool) {
-						switch t := x.(type) {
-						case *ssa.UnOp:
-							// the row's current bit: undecided
-							if t.Op == token.MUL {
-								if ia, ok := t.X.(*ssa.IndexAddr); ok && rootValue(ia.X) == ssa.Value(bIdx) {
-									return false, true
-								}
-							}
-						case *ssa.Extract:
-							if t.Index == 1 && isNullPredicate(t) {
-								switch sideOf(pe, t.Tuple) {
-								case 1:
-									return n1, true
-								case 2:
-									return n2 && colcol, true
-								}
-							}
-						case *ssa.Call:
-							if isNullPredicate(t) && len(t.Call.Args) > 0 {
-								switch sideOf(pe, t.Call.Args[0]) {
-								case 1:
-									return n1, true
-								case 2:
-									return n2 && colcol, true
-								}
-							}
-						case *ssa.BinOp:
-							if isIntegerType(t.X.Type()) && !hasNullMethod(t.X.Type()) && sideOf(pe, t.X) == 0 && sideOf(pe, t.Y) == 0 {
-								if a, ok1 := pe.intOf(t.X, 0); ok1 {
-									if b, ok2 := pe.intOf(t.Y, 0); ok2 {
-										switch t.Op {
-										case token.LSS:
-											return a < b, true
-										case token.LEQ:
-											return a <= b, true
-										case token.GTR:
-											return a > b, true
-										case token.GEQ:
-											return a >= b, true
-										case token.EQL:
-											return a == b, true
-										case token.NEQ:
-											return a != b, true
-										}
-									}
-								}
-							}
-							sx, sy := sideOf(pe, t.X), sideOf(pe, t.Y)
-							if !(sx == 1 && sy == 2 || sx == 2 && sy == 1) {
-								return false, false
-							}
-							if anyNull {
-								if isFloatType(t.X.Type()) {
-									return t.Op == token.NEQ, true // IEEE comparisons with NaN
-								}
-								why = "the payload of a null cell takes part in the comparison"
-								return false, false
-							}
-							r := rel
-							if sx == 2 {
-								r = map[string]string{"<": ">", ">": "<", "=": "="}[rel]
-							}
-							switch t.Op {
-							case token.LSS:
-								return r == "<", true
-							case token.GTR:
-								return r == ">", true
-							case token.LEQ:
-								return r != ">", true
-							case token.GEQ:
-								return r != "<", true
-							case token.EQL:
-								return r == "=", true
-							case token.NEQ:
-								return r != "=", true
-							}
-						}
-						return false, false
-					}
-					pe.oracle = func(pe *pathExec, cond ssa.Value) (bool, bool) { return pe.evalBool(cond, atom) }
-					pe.inline = func(callee *ssa.Function) bool {
-						if callee.Pkg != fn.Pkg || callee.Name() == "isNull" || callee.Name() == "IsNull" || callee.Name() == "compVal" {
-							return false
-						}
-						if r := callee.Signature.Results(); r.Len() == 2 {
-							if b, ok := r.At(1).Type().Underlying().(*types.Basic); ok && b.Kind() == types.Bool {
-								return false
-							}
-						}
-						return true
-					}
-					nStores := 0
-					var got, known bool
-					var at ssa.Instruction
-					pe.onInstr = func(pe *pathExec, in ssa.Instruction) {
-						st, ok := in.(*ssa.Store)
-						if !ok {
-							return
-						}
-						ia, ok := st.Addr.(*ssa.IndexAddr)
-						if !ok || !isBoolIndex(ia.X.Type()) {
-							return
-						}
-						nStores++
-						got, known = pe.evalBool(st.Val, atom)
-						at = in
-					}
-					end, whyNot := pe.run()
-					switch end.(type) {
-					case *ssa.Return:
-					default:
-						if why != "" {
-							whyNot = why
-						}
-						c.undecided(key, p.pos(fn.Pos()), "cannot evaluate "+fname(fn)+": "+whyNot)
+					kb := evalKernelWorld(fn, src, bIdx, colcol, n1, n2, rel)
+					if !kb.returned {
+						c.undecided(key, p.pos(fn.Pos()), "cannot evaluate "+fname(fn)+": "+kb.why)
 						continue
 					}
+					nStores, got, known, at, why := kb.nStores, kb.got, kb.known, kb.at, kb.why
 					var want bool
 					switch {
 					case e.key == "isnull":
@@ -598,6 +758,45 @@ func stripBytesConv(v ssa.Value) ssa.Value {
 
 // sameVal: the two values denote the same thing: identical, loads of the same cell, len of the same value,
 // or calls of the same parameterless accessor on the same receiver.
+// sameModuloParams: a (a value of a helper) denotes b (a value of its caller) when the helper's parameters are
+// replaced by the call's arguments.
+func sameModuloParams(a, b ssa.Value, bind map[*ssa.Parameter]ssa.Value, d int) bool {
+	if d > 6 {
+		return false
+	}
+	if pr, ok := a.(*ssa.Parameter); ok {
+		if v, ok := bind[pr]; ok {
+			return sameValue2(v, b, d)
+		}
+	}
+	switch x := a.(type) {
+	case *ssa.Call:
+		y, ok := b.(*ssa.Call)
+		if !ok || len(x.Call.Args) != len(y.Call.Args) || builtinName(x) != builtinName(y) {
+			return false
+		}
+		if builtinName(x) == "" {
+			cx, cy := x.Call.StaticCallee(), y.Call.StaticCallee()
+			if cx == nil || cx != cy || len(x.Call.Args) != 1 {
+				return false
+			}
+		} else if builtinName(x) != "len" {
+			return false
+		}
+		for i := range x.Call.Args {
+			if !sameModuloParams(x.Call.Args[i], y.Call.Args[i], bind, d+1) {
+				return false
+			}
+		}
+		return true
+	case *ssa.Convert:
+		if y, ok := b.(*ssa.Convert); ok {
+			return sameModuloParams(x.X, y.X, bind, d+1)
+		}
+	}
+	return sameValue2(a, b, d)
+}
+
 func sameValue2(a, b ssa.Value, d int) bool {
 	a, b = stripBytesConv(a), stripBytesConv(b)
 	if a == b {
@@ -706,6 +905,34 @@ func runR82(c *Ctx) {
 					if add, ok := sl.High.(*ssa.BinOp); ok && add.Op == token.ADD {
 						if sameValue2(add.X, sl.Low, 0) && sameValue2(add.Y, lenArg, 0) || sameValue2(add.Y, sl.Low, 0) && sameValue2(add.X, lenArg, 0) {
 							okLen = true
+						}
+					}
+				}
+				// the bytes come from a helper that slices the blob (`c.pointerBytes(p)` = data[off : off+p.Len()]):
+				// its length expression, with the helper's parameters replaced by this call's arguments
+				if hc, ok := src.(*ssa.Call); ok && !okLen {
+					if h := hc.Call.StaticCallee(); h != nil && h.Blocks != nil && h.Pkg == fn.Pkg && len(hc.Call.Args) == len(h.Params) {
+						bind := map[*ssa.Parameter]ssa.Value{}
+						for i, prm := range h.Params {
+							bind[prm] = hc.Call.Args[i]
+						}
+						nRet := 0
+						eachInstr(h, func(i2 ssa.Instruction) {
+							r, ok := i2.(*ssa.Return)
+							if !ok || len(r.Results) != 1 {
+								return
+							}
+							nRet++
+							if sl, ok := r.Results[0].(*ssa.Slice); ok && sl.High != nil && sl.Low != nil {
+								if add, ok := sl.High.(*ssa.BinOp); ok && add.Op == token.ADD {
+									if sameValue2(add.X, sl.Low, 0) && sameModuloParams(add.Y, lenArg, bind, 0) || sameValue2(add.Y, sl.Low, 0) && sameModuloParams(add.X, lenArg, bind, 0) {
+										okLen = true
+									}
+								}
+							}
+						})
+						if nRet != 1 {
+							okLen = false
 						}
 					}
 				}
@@ -1653,8 +1880,8 @@ func runR99(c *Ctx) {
 // ---- R94: strictness of an enum column, and when two enum columns may be compared by code ----
 
 func init() {
-	register(&Rule{ID: "R94", Name: "ENUM-STRICT-EQTYPES", Floor: 9,
-		Text: "(a) the strict flag of an enum factory is stored as `len(declared values) > 0` (or != 0, >= 1): one declared value already fixes the value set; (b) ecolumn.equalTypes, which licenses comparing two enum columns by code, is evaluated (E5) in the eight worlds of (value tables have equal length, data have equal length, the compared table entries are equal) on one-entry tables and returns true only when all three hold - codes of tables that differ anywhere do not identify the same strings",
+	register(&Rule{ID: "R94", Name: "ENUM-STRICT-EQTYPES", Floor: 5,
+		Text: "(a) the strict flag of an enum factory is stored as `len(declared values) > 0` (or != 0, >= 1): one declared value already fixes the value set; (b) ecolumn.equalTypes, which licenses comparing two enum columns by code, is evaluated (E5) in the four worlds of (value tables have equal length, the compared table entries are equal) on one-entry tables and returns true only when both hold - codes of tables that differ anywhere do not identify the same strings (a comparison of the data lengths, which are equal for columns of one frame, is answered `equal`)",
 		Run:  runR94})
 }
 
@@ -1708,9 +1935,11 @@ func runR94(c *Ctx) {
 		}
 		return fieldNameOfLoad(call.Call.Args[0])
 	}
-	for w := 0; w < 8; w++ {
-		lv, ld, el := w&1 != 0, w&2 != 0, w&4 != 0
-		key := fmt.Sprintf("internal/ecolumn.equalTypes|world sameTableLen=%v sameDataLen=%v entriesEqual=%v", lv, ld, el)
+	for w := 0; w < 4; w++ {
+		// the data slices of two columns of one frame always have the same length: that test, where present,
+		// is answered "equal" and is not a dimension of the worlds
+		lv, ld, el := w&1 != 0, true, w&2 != 0
+		key := fmt.Sprintf("internal/ecolumn.equalTypes|world sameTableLen=%v entriesEqual=%v", lv, el)
 		pe := &pathExec{fn: fn}
 		pe.lenOf = func(call *ssa.Call) (int64, bool) { return 1, true }
 		atom := func(x ssa.Value) (bool, bool) {
